@@ -23,6 +23,22 @@ Theorem C01_restores : forall cfg xid b prog d0 d1 bs ws (L : list (tablename * 
     forall x, In x bs -> no_normal x d2.
 Proof. exact restores. Qed.
 
+(* the same with committed foreign writes DURING phase one (between any two branches, any number of
+   times) as well as before phase two: every table ends as the initial one with all foreign writes
+   applied in their order *)
+Theorem C01_restores_interleaved : forall cfg xid b prog d0 d1 bs ws (L : list (tablename * key)),
+  db_wf (d_tabs d0) ->
+  (forall b', (b <= b')%N -> ulookup (xid, b') (d_undo d0) = None) ->
+  phase1i cfg xid b prog d0 = (d1, bs) ->
+  (forall x, In x bs -> forall tn k, branch_touched d1 x tn k -> In (tn, k) L) ->
+  (forall w, In w (foreign_of prog ++ ws) -> ~ In (fwrite_tn w, fwrite_key w) L) ->
+  exists d2 sts,
+    rollback_all cfg (rev bs) (with_tabs d1 (apply_foreign ws (d_tabs d1))) = (d2, sts) /\
+    Forall (eq status_ok) sts /\
+    db_equiv (d_tabs d2) (apply_foreign (foreign_of prog ++ ws) (d_tabs d0)) /\
+    forall x, In x bs -> no_normal x d2.
+Proof. exact restores_interleaved. Qed.
+
 (* 'rollbacked' is answered only when the whole clean undo of that branch happened: no injected
    failure hit it, the durable state is the one of the clean rollback, no normal undo row is left,
    the local transaction is closed. For ALL states, undo-log contents and fault positions. *)
@@ -73,4 +89,16 @@ Example C01_failure_nonvacuous :
   let '(d1, bs) := phase1 ex_cfg 1 1 ex_prog ex_d0 in
   let r := rollback_branch ex_cfg (Some 5%nat) d1 (1%N, 2%N) in
   r_fired r = true /\ r_out r = status_plain_error /\ r_ops (rollback_branch ex_cfg None d1 (1%N, 2%N)) = 12%nat.
+Proof. vm_compute. repeat split; reflexivity. Qed.
+
+Example C01_restores_interleaved_nonvacuous :
+  let prog := [IBranch [SUpdate ex_tn (Some [true; false]) [(ex_k 1, [VInt 11; VNull])]];
+               IForeign [FSet ex_tn (ex_k 3) [VInt 99; VNull]; FDel ex_tn (ex_k 2)];
+               IBranch [SInsert ex_tn [(ex_k 7, [VInt 70; VNull])]]] in
+  let '(d1, bs) := phase1i ex_cfg 1 1 prog ex_d0 in
+  length bs = 2%nat /\
+  let '(d2, sts) := rollback_all ex_cfg (rev bs) d1 in
+  sts = [status_ok; status_ok] /\
+  tbl_eqb_ext (db_get ex_tn (d_tabs d2)) (db_get ex_tn (apply_foreign (foreign_of prog) (d_tabs ex_d0))) = true /\
+  tbl_eqb_ext (db_get ex_tn (d_tabs d2)) (db_get ex_tn (d_tabs ex_d0)) = false.
 Proof. vm_compute. repeat split; reflexivity. Qed.
